@@ -290,7 +290,9 @@ func run(c *core.Ctx) {
 		"and both Decode and DecodeToJson through a canary-guarded sub-slice; one evaluation = one decoder call; a fingerprint = family|params/entry|how the input was " +
 		"derived (mutation kind + class of the touched byte, or shape of the valid line)|outcome (ok / error class / panic / cut class); results-stay-valid: every well-formed line and every 4th " +
 		"other input is decoded once more per entry point with its own buffer and root, the last 5 results per entry stay alive and are re-encoded after every later decode; " +
-		"per case 4 goroutines share the decoder instances over up to 40 of these lines")
+		"per case 4 goroutines share the decoder instances over up to 40 of these lines; pipeline size gate: per pipeline case one well-formed line (LF / no LF) and one damaged copy, " +
+		"handed to the real Pipeline.In as a sub-slice of a reader buffer (previous record, two following records, canaries; capacity to the end of the buffer or 0/1/2/7 bytes) " +
+		"under max_event_size in {0, small, len-2 … len+2} x cut_off_event_by_limit off/on (one pipeline each); every byte outside the record is compared after In returned and after the event was finalized")
 	c.Assume("the reference recognisers (regular expressions / small parsers written from decoder/readme.md, RFC 3164, RFC 5424, RFC 4180, RFC 8259, the CRI log format and the protobuf wire/JSON specs) define 'well-formed'; lines they do not recognise are only required to be handled totally")
 	c.Assume("a recovered panic in a directly called decoder function is a process crash in production (Pipeline.In has no recover); the first witness of every panic signature is confirmed by a child that does not recover")
 	c.Assume("a row returned by Decode may alias the caller's line (the caller keeps that buffer untouched while it uses the row); an event filled by DecodeToJson must not (the line buffer is overwritten right after the call)")
@@ -401,6 +403,21 @@ func run(c *core.Ctx) {
 		}
 		if c.Counter("pipeline:"+pc.label+".rejected") == 0 {
 			c.Fatal("pipeline %s: no rejected line observed", pc.label)
+		}
+		// size-gate boundary pass: every cell of the matrix must have been driven
+		for _, k := range []string{"bound_pipelines", "bound_in_calls", "bound_buffer_checks"} {
+			if c.Counter("pipeline:"+pc.label+"."+k) == 0 {
+				c.Fatal("pipeline %s: boundary pass observed nothing (%s)", pc.label, k)
+			}
+		}
+		for _, rel := range boundRels {
+			for _, cut := range []bool{false, true} {
+				for _, nl := range []bool{false, true} {
+					if c.Counter("pipeline:"+pc.label+"."+boundCell(rel, cut, nl)) == 0 {
+						c.Fatal("pipeline %s: boundary cell never driven: %s", pc.label, boundCell(rel, cut, nl))
+					}
+				}
+			}
 		}
 	}
 }
